@@ -99,10 +99,15 @@ Definition writer_level (c : codec) (l : Z) : Z :=
    on the compressing path (compressor.compress reads and closes the body itself); how net/http
    treats a failing body of an uncompressed request is outside the model. *)
 Record creq := { q_ce : list string; q_body : option bytes;
+                 q_stream : bool;   (* the body is an opaque reader: no length declared (sent chunked) *)
                  q_rerr : bool;     (* the body's Read fails after delivering the bytes *)
                  q_cerr : bool }.   (* the body's Close fails *)
 (* a request on the wire / as received by the server *)
-Record wreq := { w_ce : list string; w_body : bytes }.
+(* w_cl: the length the request DECLARES (http.Request.ContentLength as the server sees it):
+   the number of body bytes, or -1 when none is declared (Transfer-Encoding: chunked).  The server
+   model takes it as an independent input: nothing in the code may depend on it except that the
+   handler sees it. *)
+Record wreq := { w_ce : list string; w_body : bytes; w_cl : Z }.
 
 Definition body_bytes (b : option bytes) : bytes := match b with Some x => x | None => [] end.
 
@@ -113,7 +118,12 @@ Definition hget (ce : list string) : string := hd s_empty ce.
 Definition body_ok (r : creq) : bool :=
   match r.(q_body) with None => true | Some _ => negb r.(q_rerr) && negb r.(q_cerr) end.
 
-Definition plain (r : creq) : wreq := {| w_ce := r.(q_ce); w_body := body_bytes r.(q_body) |}.
+Definition blen (b : bytes) : Z := Z.of_nat (List.length b).
+
+(* an untouched request: net/http declares the length of a known body, none for an opaque reader *)
+Definition plain (r : creq) : wreq :=
+  {| w_ce := r.(q_ce); w_body := body_bytes r.(q_body);
+     w_cl := if r.(q_stream) then (-1)%Z else blen (body_bytes r.(q_body)) |}.
 
 Section Codec.
   Variable enc : codec -> Z -> bytes -> bytes.      (* writer of that codec at that level, Write* + Close *)
@@ -143,7 +153,8 @@ Section Codec.
     else
       match compress c (writer_level c l) r with
       | None => CError
-      | Some buf => CSent {| w_ce := r.(q_ce) ++ [t]; w_body := buf |}   (* headers cloned, encoding Added *)
+      (* new request over the bytes.Buffer (its length is declared); headers cloned, encoding Added *)
+      | Some buf => CSent {| w_ce := r.(q_ce) ++ [t]; w_body := buf; w_cl := blen buf |}
       end.
 
   (* ClientConfig.Validate + ToClient + one request through the resulting transport *)
@@ -235,7 +246,7 @@ Section Codec.
         match run_slot sl body1 with
         | None => Panicked
         | Some DInitErr => Rejected 400
-        | Some DNone => Handled w.(w_ce) (Z.of_nat (List.length w.(w_body))) body1
+        | Some DNone => Handled w.(w_ce) w.(w_cl) body1
         | Some (DStream s) => Handled [] (-1) (max_bytes L s)   (* headers deleted, limit after decoding *)
         end
     end.
@@ -273,7 +284,7 @@ Section Codec.
     | SCustom i => Some (lcdec i)
     end.
 
-  Definition lserver (sc : scfg) (ldec : codec -> ldres) (lcdec : N -> ldres) (ce : list string) (n : Z) : lsout :=
+  Definition lserver (sc : scfg) (ldec : codec -> ldres) (lcdec : N -> ldres) (ce : list string) (n cl : Z) : lsout :=
     let L := eff_max sc in
     let body1 := lmax_bytes L (n, E_EOF) in
     match tget (decoders sc) (hget ce) with
@@ -282,7 +293,7 @@ Section Codec.
         match lrun_slot ldec lcdec sl with
         | None => LPanicked
         | Some LInitErr => LRejected 400
-        | Some LNone => LHandled ce n body1
+        | Some LNone => LHandled ce cl body1
         | Some (LStream s) => LHandled [] (-1) (lmax_bytes L s)
         end
     end.
